@@ -160,7 +160,7 @@ def small_trees(max_nodes):
 
 
 def run(ctx):
-    n = ctx.budget(2500, 60000)
+    n = ctx.budget(10000, 80000)
     depth = ctx.budget(4, 5)
     # ---- B0: flag machine
     rng = ctx.rng("flags")
@@ -230,6 +230,19 @@ def run(ctx):
     ctx.evaluate("verdict/direct", dcases, check_verdict, in_known=known_class, nontrivial=nt)
     ctx.evaluate("verdict/default", kcases2, check_verdict, in_known=known_class, nontrivial=nt)
     ctx.evaluate("flags", [c for c in cases if c["setters"]], check_flags, in_known=known_class, nontrivial=nt)
+    # ---- the known-finding classes are exercised on purpose (model and implementation must agree there too)
+    rng = ctx.rng("collisions")
+    pool = [1, "1", None, "None", True, "True", "", {}, 1.0, "1.0", [1], "[1]", [{"x": 1, "y": 2}], "a"]
+    ccases = []
+    for _ in range(n // 10):
+        xs = [rng.choice(pool) for _ in range(rng.choice([1, 2, 3, 4]))]
+        ys = list(xs)
+        rng.shuffle(ys)
+        if rng.random() < 0.3 and ys:
+            ys[rng.randrange(len(ys))] = rng.choice(pool)
+        ccases.append({"mode": "k", "setters": cc.gen_setters(rng), "ck": [], "only": [], "excl": [], "tr": [], "a": {"a": xs}, "b": {"a": ys}, "_kind": "collision"})
+    ctx.correspond("cmp.run/collisions", ccases, cc.corr_line, cc.corr_impl)
+    ctx.evaluate("verdict/collisions", ccases, check_verdict, in_known=known_class)
     ctx.extra["pair_kinds"] = {k: sum(1 for c in cases if c["_kind"].startswith(k)) for k in ("equal", "mutated", "permuted", "unrelated")}
     ctx.extra["verdicts"] = {
         "direct_equal": sum(1 for c in dcases if cc.deq(c["a"], c["b"])),
